@@ -121,6 +121,14 @@ class MathSimplification:
             newbody: list[AST] = []
             agg_conditions: dict[Sign, set[AST]] = defaultdict(set)
             for blit in stm.body:
+                if (
+                    blit.ast_type == ASTType.Literal
+                    and blit.atom.ast_type == ASTType.Comparison
+                    and not collect_ast(blit, "Variable")
+                    and any(term.symbol.type == SymbolType.Function for term in collect_ast(blit, "SymbolicTerm"))
+                ):
+                    newbody.append(blit)  # a condition on symbolic constants only, their values are not known here
+                    continue
                 expr_list = gb.to_sympy(blit)
                 if expr_list is None:
                     newbody.append(blit)
